@@ -11,9 +11,9 @@ func init() {
 			{Pkg: "workerpool", Harness: "grouptree", Weight: 2, Note: "root -> mid -> leaf, waits on every level, a subgroup shut down while submitters run"},
 		},
 		QuickS: 30, ThoroughS: 900,
-		Rule:   "each run draws a pool configuration (1-3 workers, cancel-on-shutdown on/off, optional restart cycles, optional group tree), 1-3 submitters with 1-3 tasks each (tasks yield and may submit nested tasks), a Shutdown/ShutdownComplete.Wait caller, waiters, and a schedule; distinct = distinct (configuration, schedule, event log) hash; non-trivial = at least two recorded decisions",
+		Rule:   "each run draws a pool configuration (1-3 workers, cancel-on-shutdown on/off, optional restart cycles, optional group tree; grouptree: root -> mid -> leaf with 1-2 pools per level, WaitChildren / WaitParents callers on every level, optionally Shutdown of a subgroup while submitters are at work), 1-3 submitters with 1-3 tasks each (tasks yield and may submit nested tasks), a Shutdown/ShutdownComplete.Wait caller, waiters, and a schedule; distinct = distinct (configuration, schedule, event log) hash; non-trivial = at least two recorded decisions",
 		Real:   []string{"runtime/workerpool (WorkerPool, Task, Group)", "runtime/syncutils (Counter, Stack)", "ds/orderedmap"},
 		Stubs:  commonStubs,
-		Assume: []string{"one task executes at a time; context switches only at sync/atomic/channel/select/go operations", "accepted = the pending counter was raised inside the Submit call (observed through PendingTasksCounter.Subscribe)", "bounded: <=3 submitters x <=3 tasks, <=3 restart cycles"},
+		Assume: []string{"one task executes at a time; context switches only at sync/atomic/channel/select/go operations", "accepted = the pending counter was raised inside the Submit call (observed through PendingTasksCounter.Subscribe)", "WaitChildren/WaitParents may only return if at some instant of the call nothing was pending below the group; pending is bounded from below by a ghost (+1 when an accepted Submit has returned, -1 when the task function finished, cancelled tasks -1 retroactively at the step their Shutdown was invoked), evaluated after quiescence", "bounded: <=3 submitters x <=3 tasks, <=3 restart cycles"},
 	})
 }
